@@ -211,10 +211,20 @@ def run(ctx):
         # the per-node closure: takes &DeepNode, returns String
         ncl = [fb.bodies[c] for c in fb.closures_of(ur[0]["path"]) if fb.bodies[c]["arg_count"] == 2 and "DeepNode<" in fb.bodies[c]["locals"][2]["ty"]
                and fb.bodies[c]["locals"][0]["ty"] == "std::string::String"]
+        if not ncl:
+            # ... or a private function the printer calls for each node
+            callees = {mir.callee_path(t) for _, t in mir.calls(ur[0])} | {mir.callee_path(t) for c in fb.closures_of(ur[0]["path"]) for _, t in mir.calls(fb.bodies[c])}
+            ncl = [fb.bodies[c] for c in callees if c in fb.bodies and fb.bodies[c]["kind"] == "Fn" and fb.bodies[c]["locals"][0]["ty"] == "std::string::String"
+                   and any("DeepNode<" in fb.bodies[c]["locals"][i]["ty"] and "[" not in fb.bodies[c]["locals"][i]["ty"] for i in range(1, fb.bodies[c]["arg_count"] + 1)) and c != ur[0]["path"]]
         if len(ncl) != 1:
             chk.unrecognised("R12.4", "node-printer", "per-node closure of the deep printer not found (%d candidates)" % len(ncl), loc(ur[0]["span"]))
         else:
             cb = ncl[0]
+
+            def nargs(node):
+                if cb["kind"] == "Closure":
+                    return [_S("env"), node]
+                return [node if ("DeepNode<" in cb["locals"][i]["ty"] and "[" not in cb["locals"][i]["ty"]) else _S("a%d" % i) for i in range(1, cb["arg_count"] + 1)]
 
             def lit(v):
                 """printable literal text of a format string and its arguments"""
@@ -227,15 +237,15 @@ def run(ctx):
                 args = fa[1].elems if isinstance(fa[1], _T) else [fa[1]]
                 return text, [_rel.cstr(a) for a in args]
             probs = []
-            ps = [p for p in _I(fb, _Pol()).run(cb, [_S("env"), _V(NODE, "Num", {"0": _S("n")})]) if p.status == "return"]
+            ps = [p for p in _I(fb, _Pol()).run(cb, nargs(_V(NODE, "Num", {"0": _S("n")}))) if p.status == "return"]
             r = lit(ps[0].result) if len(ps) == 1 else None
             if r != ("", ["core::fmt::rt::Argument::<'_>::new_debug(n)"]):
                 probs.append("a number prints as %s, expected its Debug form alone" % (r,))
-            ps = [p for p in _I(fb, _Pol()).run(cb, [_S("env"), _V(NODE, "Var", {"0": _T([_S("i"), _S("name")])})]) if p.status == "return"]
+            ps = [p for p in _I(fb, _Pol()).run(cb, nargs(_V(NODE, "Var", {"0": _T([_S("i"), _S("name")])}))) if p.status == "return"]
             r = lit(ps[0].result) if len(ps) == 1 else None
             if r != ("{}", ["core::fmt::rt::Argument::<'_>::new_display(name)"]):
                 probs.append("a variable prints as %s, expected `{name}`" % (r,))
-            ps = [p for p in _I(fb, _Pol()).run(cb, [_S("env"), _V(NODE, "Expr", {"0": _S("e")})]) if p.status == "return"]
+            ps = [p for p in _I(fb, _Pol()).run(cb, nargs(_V(NODE, "Expr", {"0": _S("e")}))) if p.status == "return"]
             REC = r"%s\(expression::deep::DeepEx::<'a, T, OF, LM>::nodes\((?P<x>.*?)\), expression::deep::DeepEx::<'a, T, OF, LM>::bin_ops\((?P=x)\), expression::deep::DeepEx::<'a, T, OF, LM>::unary_op\((?P=x)\)\)" % re.escape(ur[0]["path"])
             seen_e = set()
             for p in ps:
